@@ -22,7 +22,8 @@ Local Open Scope Z_scope.
 
 Definition host := Z.
 
-Inductive pstate := PMissing | PShutdown | PNoConn | PBusy | PFail | PSendFail | PHealthy.
+Inductive pstate := PMissing | PShutdown | PNoConn | PBusy | PFail | PSendFail | PHealthy
+  | PNoConnSlow.   (* borrow_connection blocks until the request's client timeout has elapsed, then NoConnectionsAvailable *)
 Inductive decision := DRetry | DRethrow | DIgnore | DNextHost.
 (* failures for which _set_result consults the retry policy *)
 Inductive ekind := KReadTimeout | KWriteTimeout | KUnavailable | KOverloaded | KBootstrapping | KTruncate
@@ -45,9 +46,10 @@ Inductive fres := FRows | FNone | FMsg.
 Inductive fexc :=
 | XResp (k : ekind) (tag : Z)       (* exception_from_response(the retryable error) *)
 | XOtherError (tag : Z) | XOtherExc (tag : Z) | XUnprepared (tag : Z)
-| XNoHost (errs : list (host * err))
+| XNoHost            (* NoHostAvailable; its .errors IS the future's live _errors dict (no copy): read `errors s` *)
 | XIdMismatch | XKsMismatch | XUnexpected | XAssert | XAttr
-| XShutdown.                        (* ConnectionShutdown: the shut-down session refused the follow-up work *)
+| XShutdown
+| XTimeout.                         (* OperationTimedOut set by _on_timeout *)                        (* ConnectionShutdown: the shut-down session refused the follow-up work *)
 
 Inductive mkind := MOrig (cl : option Z) | MPrepare (qs : Z) (ks : option Z).
 (* why a message was sent (ghost: not observable on the implementation, used by the theorems) *)
@@ -73,7 +75,9 @@ Record config := {
   fut_ps : option pstmt;              (* ResponseFuture.prepared_statement *)
   known : list (Z * pstmt);           (* cluster._prepared_statements *)
   pv : Z;                             (* cluster.protocol_version *)
-  tgt : option host                   (* ResponseFuture._host: execute(..., host=h); must be the `target` given to init *)
+  tgt : option host;                  (* ResponseFuture._host: execute(..., host=h); must be the `target` given to init *)
+  inline_retry : bool                 (* executor-first schedule: a submitted _retry_task runs before the submitting thread
+                                         goes on (so before _handle_retry_decision records the answering host's error) *)
 }.
 
 Record attempt := { a_host : host; a_prep : bool; a_done : bool; a_page : nat }.   (* a_page: the page fetch it belongs to *)
@@ -94,7 +98,9 @@ Record state := {
   spec_left : Z;               (* ConstantSpeculativeExecutionPlan.remaining *)
   conn_ks : option Z;          (* keyspace of the session's connections *)
   paging : bool;               (* _paging_state is set: the delivered page said there are more pages *)
-  page_no : nat                (* _page_no: which page fetch is current *)
+  page_no : nat;               (* _page_no: which page fetch is current *)
+  elapsed : bool;              (* the request's client timeout has elapsed (time passes inside a slow borrow_connection) *)
+  borrowed : bool              (* _connection is not None: some borrow_connection of this request succeeded *)
 }.
 
 Inductive op :=
@@ -144,20 +150,20 @@ Definition set_err (s : state) (h : host) (e : err) : state :=
   {| plan := plan s; consumed := consumed s; pools := pools s; msg_cl := msg_cl s; retries := retries s;
      nconsult := nconsult s; errors := upd (errors s) h e; queue := queue s; attempts := attempts s;
      fin_res := fin_res s; fin_exc := fin_exc s; spec_armed := spec_armed s; spec_left := spec_left s;
-     conn_ks := conn_ks s; paging := paging s; page_no := page_no s |}.
+     conn_ks := conn_ks s; paging := paging s; page_no := page_no s; elapsed := elapsed s; borrowed := borrowed s |}.
 
 (* raw setters; the model uses fail_with / finish_with below (first outcome wins) *)
 Definition set_exc (s : state) (x : fexc) : state :=
   {| plan := plan s; consumed := consumed s; pools := pools s; msg_cl := msg_cl s; retries := retries s;
      nconsult := nconsult s; errors := errors s; queue := queue s; attempts := attempts s;
      fin_res := fin_res s; fin_exc := Some x; spec_armed := false; spec_left := spec_left s;
-     conn_ks := conn_ks s; paging := paging s; page_no := page_no s |}.
+     conn_ks := conn_ks s; paging := paging s; page_no := page_no s; elapsed := elapsed s; borrowed := borrowed s |}.
 
 Definition set_res (s : state) (r : fres) : state :=
   {| plan := plan s; consumed := consumed s; pools := pools s; msg_cl := msg_cl s; retries := retries s;
      nconsult := nconsult s; errors := errors s; queue := queue s; attempts := attempts s;
      fin_res := Some r; fin_exc := fin_exc s; spec_armed := false; spec_left := spec_left s;
-     conn_ks := conn_ks s; paging := paging s; page_no := page_no s |}.
+     conn_ks := conn_ks s; paging := paging s; page_no := page_no s; elapsed := elapsed s; borrowed := borrowed s |}.
 
 (* cluster.py (first-outcome-wins guard in _set_final_result/_set_final_exception): the timer is cancelled in any case, the
    outcome is stored only if none has been delivered yet *)
@@ -165,7 +171,7 @@ Definition cancel_timer (s : state) : state :=
   {| plan := plan s; consumed := consumed s; pools := pools s; msg_cl := msg_cl s; retries := retries s;
      nconsult := nconsult s; errors := errors s; queue := queue s; attempts := attempts s;
      fin_res := fin_res s; fin_exc := fin_exc s; spec_armed := false; spec_left := spec_left s;
-     conn_ks := conn_ks s; paging := paging s; page_no := page_no s |}.
+     conn_ks := conn_ks s; paging := paging s; page_no := page_no s; elapsed := elapsed s; borrowed := borrowed s |}.
 
 Definition fail_with (s : state) (x : fexc) : state := if completed s then cancel_timer s else set_exc s x.
 Definition finish_with (s : state) (r : fres) : state := if completed s then cancel_timer s else set_res s r.
@@ -179,7 +185,7 @@ Definition push_task (s : state) (t : task) : state :=
   {| plan := plan s; consumed := consumed s; pools := pools s; msg_cl := msg_cl s; retries := retries s;
      nconsult := nconsult s; errors := errors s; queue := queue s ++ [t]; attempts := attempts s;
      fin_res := fin_res s; fin_exc := fin_exc s; spec_armed := spec_armed s; spec_left := spec_left s;
-     conn_ks := conn_ks s; paging := paging s; page_no := page_no s |}.
+     conn_ks := conn_ks s; paging := paging s; page_no := page_no s; elapsed := elapsed s; borrowed := borrowed s |}.
 
 Definition submit (s : state) (t : task) : state :=
   if session_shut s then fail_with s XShutdown else push_task s t.
@@ -189,19 +195,19 @@ Definition add_attempt (s : state) (h : host) (prep : bool) : state :=
      nconsult := nconsult s; errors := errors s; queue := queue s;
      attempts := attempts s ++ [{| a_host := h; a_prep := prep; a_done := false; a_page := page_no s |}];
      fin_res := fin_res s; fin_exc := fin_exc s; spec_armed := spec_armed s; spec_left := spec_left s;
-     conn_ks := conn_ks s; paging := paging s; page_no := page_no s |}.
+     conn_ks := conn_ks s; paging := paging s; page_no := page_no s; elapsed := elapsed s; borrowed := borrowed s |}.
 
 Definition take_host (s : state) (h : host) (rest : list host) : state :=
   {| plan := rest; consumed := consumed s ++ [h]; pools := pools s; msg_cl := msg_cl s; retries := retries s;
      nconsult := nconsult s; errors := errors s; queue := queue s; attempts := attempts s;
      fin_res := fin_res s; fin_exc := fin_exc s; spec_armed := spec_armed s; spec_left := spec_left s;
-     conn_ks := conn_ks s; paging := paging s; page_no := page_no s |}.
+     conn_ks := conn_ks s; paging := paging s; page_no := page_no s; elapsed := elapsed s; borrowed := borrowed s |}.
 
 Definition set_paging (s : state) (b : bool) : state :=
   {| plan := plan s; consumed := consumed s; pools := pools s; msg_cl := msg_cl s; retries := retries s;
      nconsult := nconsult s; errors := errors s; queue := queue s; attempts := attempts s;
      fin_res := fin_res s; fin_exc := fin_exc s; spec_armed := spec_armed s; spec_left := spec_left s;
-     conn_ks := conn_ks s; paging := b; page_no := page_no s |}.
+     conn_ks := conn_ks s; paging := b; page_no := page_no s; elapsed := elapsed s; borrowed := borrowed s |}.
 
 (* ROWS: the page and its paging state are delivered together, and only if this answer is the first outcome of the page fetch *)
 Definition finish_rows (s : state) (more : bool) : state :=
@@ -211,9 +217,24 @@ Definition is_prepare (m : mkind) : bool := match m with MPrepare _ _ => true | 
 
 (* ---------------------------------------------------------------- _query *)
 (* returns (state, events, request sent?) *)
-Definition query (s : state) (h : host) (m : mkind) (c : cause) : state * list event * bool :=
+(* what borrow_connection does to the request besides its result: a slow borrow lets the client timeout elapse, a
+   successful one sets _connection *)
+Definition touch (s : state) (p : pstate) : state :=
+  {| plan := plan s; consumed := consumed s; pools := pools s; msg_cl := msg_cl s; retries := retries s;
+     nconsult := nconsult s; errors := errors s; queue := queue s; attempts := attempts s;
+     fin_res := fin_res s; fin_exc := fin_exc s; spec_armed := spec_armed s; spec_left := spec_left s;
+     conn_ks := conn_ks s; paging := paging s; page_no := page_no s;
+     elapsed := elapsed s || match p with PNoConnSlow => true | _ => false end;
+     borrowed := borrowed s || match p with PBusy | PSendFail | PHealthy => true | _ => false end |}.
+
+(* _on_timeout (PYTHON-853): while no connection was ever borrowed it only re-schedules itself; else OperationTimedOut *)
+Definition on_timeout (s : state) : state := if borrowed s then fail_with s XTimeout else s.
+
+Definition query (s0 : state) (h : host) (m : mkind) (c : cause) : state * list event * bool :=
+  let s := touch s0 (pool_of s0 h) in
   let fail e := (set_err s h e, [ErrSet h e], false) in
-  match pool_of s h with
+  match pool_of s0 h with
+  | PNoConnSlow => fail ENoConn
   | PMissing => fail EDown
   | PShutdown => fail EShutdown
   | PNoConn => fail ENoConn
@@ -226,10 +247,11 @@ Definition query (s : state) (h : host) (m : mkind) (c : cause) : state * list e
 (* ---------------------------------------------------------------- send_request *)
 Fixpoint walk (s : state) (p : list host) (error_no_hosts : bool) : state * list event :=
   match p with
-  | [] => ((if error_no_hosts then fail_with s (XNoHost (errors s)) else s), [])
+  | [] => ((if error_no_hosts then fail_with s XNoHost else s), [])
   | h :: rest =>
       let '(s1, ev, ok) := query (take_host s h rest) h (MOrig (msg_cl s)) CPlan in
       if ok then (s1, ev)
+      else if elapsed s1 then (on_timeout s1, ev)      (* client timeout elapsed while walking: _on_timeout(); return True *)
       else let '(s2, ev2) := walk s1 rest error_no_hosts in (s2, ev ++ ev2)
   end.
 
@@ -245,7 +267,7 @@ Definition bump_counters (s : state) (dcl : option Z) : state :=
      retries := retries s + 1; nconsult := nconsult s; errors := errors s;
      queue := queue s; attempts := attempts s;
      fin_res := fin_res s; fin_exc := fin_exc s; spec_armed := spec_armed s; spec_left := spec_left s;
-     conn_ks := conn_ks s; paging := paging s; page_no := page_no s |}.
+     conn_ks := conn_ks s; paging := paging s; page_no := page_no s; elapsed := elapsed s; borrowed := borrowed s |}.
 
 Definition bump_retry (s : state) (dcl : option Z) (t : task) : state :=
   let s1 := bump_counters s dcl in
@@ -268,7 +290,7 @@ Definition tick_consult (s : state) : state :=
   {| plan := plan s; consumed := consumed s; pools := pools s; msg_cl := msg_cl s; retries := retries s;
      nconsult := S (nconsult s); errors := errors s; queue := queue s; attempts := attempts s;
      fin_res := fin_res s; fin_exc := fin_exc s; spec_armed := spec_armed s; spec_left := spec_left s;
-     conn_ks := conn_ks s; paging := paging s; page_no := page_no s |}.
+     conn_ks := conn_ks s; paging := paging s; page_no := page_no s; elapsed := elapsed s; borrowed := borrowed s |}.
 
 (* ---------------------------------------------------------------- _set_result (h = host of the attempt) *)
 Definition uses_ks (c : config) : bool := uses_keyspace_flag (pv c).
@@ -354,25 +376,26 @@ Definition set_queue (s : state) (q : list task) : state :=
   {| plan := plan s; consumed := consumed s; pools := pools s; msg_cl := msg_cl s; retries := retries s;
      nconsult := nconsult s; errors := errors s; queue := q; attempts := attempts s;
      fin_res := fin_res s; fin_exc := fin_exc s; spec_armed := spec_armed s; spec_left := spec_left s;
-     conn_ks := conn_ks s; paging := paging s; page_no := page_no s |}.
+     conn_ks := conn_ks s; paging := paging s; page_no := page_no s; elapsed := elapsed s; borrowed := borrowed s |}.
 
 Definition set_attempts (s : state) (a : list attempt) : state :=
   {| plan := plan s; consumed := consumed s; pools := pools s; msg_cl := msg_cl s; retries := retries s;
      nconsult := nconsult s; errors := errors s; queue := queue s; attempts := a;
      fin_res := fin_res s; fin_exc := fin_exc s; spec_armed := spec_armed s; spec_left := spec_left s;
-     conn_ks := conn_ks s; paging := paging s; page_no := page_no s |}.
+     conn_ks := conn_ks s; paging := paging s; page_no := page_no s; elapsed := elapsed s; borrowed := borrowed s |}.
 
 (* ---------------------------------------------------------------- speculative timer *)
 Definition set_spec (s : state) (armed : bool) (left : Z) : state :=
   {| plan := plan s; consumed := consumed s; pools := pools s; msg_cl := msg_cl s; retries := retries s;
      nconsult := nconsult s; errors := errors s; queue := queue s; attempts := attempts s;
      fin_res := fin_res s; fin_exc := fin_exc s; spec_armed := armed; spec_left := left;
-     conn_ks := conn_ks s; paging := paging s; page_no := page_no s |}.
+     conn_ks := conn_ks s; paging := paging s; page_no := page_no s; elapsed := elapsed s; borrowed := borrowed s |}.
 
 (* _start_timer with timeout=None: arm a speculative timer iff the plan still yields a delay *)
+(* next_execution() is consumed first; the speculative timer is created only if the time remaining exceeds its delay *)
 Definition start_timer (s : state) : state :=
   if spec_armed s then s
-  else if 0 <? spec_left s then set_spec s true (spec_left s - 1) else s.
+  else if 0 <? spec_left s then set_spec s (negb (elapsed s)) (spec_left s - 1) else s.
 
 Definition spec_fire (s : state) : state * list event :=
   if negb (spec_armed s) then (s, [])
@@ -380,14 +403,15 @@ Definition spec_fire (s : state) : state * list event :=
        if completed s0 then (s0, [])
        else match attempts s0 with
             | [] => (set_spec s0 true (spec_left s0), [])        (* re-armed: nothing sent yet *)
-            | _ => let '(s1, ev) := send_request s0 false in (start_timer s1, ev)
+            | _ => if elapsed s0 then (on_timeout s0, [])          (* _time_remaining <= 0: _on_timeout(); return *)
+                   else let '(s1, ev) := send_request s0 false in (start_timer s1, ev)
             end.
 
 Definition set_env (s : state) (p : list (host * pstate)) (k : option Z) : state :=
   {| plan := plan s; consumed := consumed s; pools := p; msg_cl := msg_cl s; retries := retries s;
      nconsult := nconsult s; errors := errors s; queue := queue s; attempts := attempts s;
      fin_res := fin_res s; fin_exc := fin_exc s; spec_armed := spec_armed s; spec_left := spec_left s;
-     conn_ks := k; paging := paging s; page_no := page_no s |}.
+     conn_ks := k; paging := paging s; page_no := page_no s; elapsed := elapsed s; borrowed := borrowed s |}.
 
 Definition make_plan (lb_plan : list host) (target : option host) : list host :=
   match target with Some h => [h] | None => lb_plan end.
@@ -405,7 +429,30 @@ Definition page_start (c : config) (s : state) (p : list host) : state :=
   {| plan := make_plan p (tgt c); consumed := consumed s; pools := pools s; msg_cl := msg_cl s; retries := retries s;
      nconsult := nconsult s; errors := errors s; queue := queue s; attempts := attempts s;
      fin_res := None; fin_exc := None; spec_armed := false; spec_left := spec_left s;
-     conn_ks := conn_ks s; paging := paging s; page_no := S (page_no s) |}.
+     conn_ks := conn_ks s; paging := paging s; page_no := S (page_no s); elapsed := false; borrowed := borrowed s |}      (* _start_time = time.time(): each page fetch has its own timeout *).
+
+(* _set_result for a retryable failure under the executor-first schedule: _handle_retry_decision's last statement
+   `self._errors[host] = ...` runs AFTER the retry task it submitted.  (Early exit of _retry, a refused submit and the
+   decisions RETHROW / IGNORE are as in the other schedule.) *)
+Definition retry_inline (c : config) (s0 : state) (h : host) (k : ekind) (tag : Z) : state * list event :=
+  let clarg := if request_error_kind k then msg_cl s0 else None in
+  let '(d, dcl) := pol c (nconsult s0) k tag (retries s0) clarg in
+  let go (reuse : bool) :=
+    if is_some (fin_exc s0) || session_shut s0 then set_result c s0 h (RRetryable k tag)
+    else let '(s2, ev2) := run_task c (bump_counters (tick_consult s0) dcl) (TRetry reuse h) in
+         (set_err s2 h (EResp k tag),
+          Consult (nconsult s0) h k tag (retries s0) clarg d dcl :: ev2 ++ [ErrSet h (EResp k tag)]) in
+  match d with
+  | DRetry => go true
+  | DNextHost => go false
+  | _ => set_result c s0 h (RRetryable k tag)
+  end.
+
+Definition resp_current (c : config) (s0 : state) (h : host) (r : resp) : state * list event :=
+  match r with
+  | RRetryable k tag => if inline_retry c then retry_inline c s0 h k tag else set_result c s0 h r
+  | _ => set_result c s0 h r
+  end.
 
 (* ---------------------------------------------------------------- one step *)
 Definition step (c : config) (s : state) (o : op) : state * list event :=
@@ -418,7 +465,7 @@ Definition step (c : config) (s : state) (o : op) : state * list event :=
           if a_done a then (s, [])
           else let s0 := set_attempts s (mark_done i (attempts s)) in
                if a_prep a then (submit s0 (TAfterPrepare (a_host a) r), [])
-               else if Nat.eqb (a_page a) (page_no s) then set_result c s0 (a_host a) r
+               else if Nat.eqb (a_page a) (page_no s) then resp_current c s0 (a_host a) r
                else (s0, [])        (* _set_result_of_page: the answer of an execution of an earlier page fetch is dropped *)
       end
   | Run k =>
@@ -458,7 +505,7 @@ Definition init (lb_plan : list host) (target : option host) (pl : list (host * 
   {| plan := make_plan lb_plan target; consumed := []; pools := pl; msg_cl := cl; retries := 0; nconsult := 0%nat;
      errors := []; queue := []; attempts := []; fin_res := None; fin_exc := None;
      spec_armed := false; spec_left := spec_gate idempotent has_policy max_attempts; conn_ks := ks;
-     paging := false; page_no := 0%nat |}.
+     paging := false; page_no := 0%nat; elapsed := false; borrowed := false |}.
 
 (* ---------------------------------------------------------------- observation encoding (correspondence only) *)
 Definition enc_opt (o : option Z) : list Z := match o with None => [0] | Some z => [1; z] end.
@@ -489,11 +536,11 @@ Definition enc_task (t : task) : list Z :=
   end.
 Definition enc_errors (l : list (host * err)) : list Z :=
   Z.of_nat (length l) :: flat_map (fun p => fst p :: enc_err (snd p)) l.
-Definition enc_fexc (x : fexc) : list Z :=
+Definition enc_fexc (live : list (host * err)) (x : fexc) : list Z :=
   match x with
   | XResp k tag => [1; enc_kind k; tag] | XOtherError tag => [2; tag] | XOtherExc tag => [3; tag]
-  | XUnprepared tag => [4; tag] | XNoHost errs => 5 :: enc_errors errs
-  | XIdMismatch => [6] | XKsMismatch => [7] | XUnexpected => [8] | XAssert => [9] | XAttr => [10] | XShutdown => [11]
+  | XUnprepared tag => [4; tag] | XNoHost => 5 :: enc_errors live
+  | XIdMismatch => [6] | XKsMismatch => [7] | XUnexpected => [8] | XAssert => [9] | XAttr => [10] | XShutdown => [11] | XTimeout => [12]
   end.
 Definition enc_fres (r : fres) : Z := match r with FRows => 0 | FNone => 1 | FMsg => 2 end.
 
@@ -504,7 +551,7 @@ Definition enc_obs (o : list event * state) : list Z :=
   ++ [retries s] ++ enc_opt (msg_cl s)
   ++ Z.of_nat (length (queue s)) :: flat_map enc_task (queue s)
   ++ enc_opt (option_map enc_fres (fin_res s))
-  ++ match fin_exc s with None => [0] | Some x => 1 :: enc_fexc x end
+  ++ match fin_exc s with None => [0] | Some x => 1 :: enc_fexc (errors s) x end
   ++ [if spec_armed s then 1 else 0; if paging s then 1 else 0].
 
 Definition trace (c : config) (s : state) (ops : list op) : list Z := flat_map enc_obs (run c s ops).
